@@ -162,8 +162,14 @@ Sampled == Stride <= 1 \/ Hash(script.idx) % Stride = 0
 
 Flat(p) == p    \* patterns are emitted as arrays of characters; the harness joins them
 
+(* the non-base entries of .gnu.version_d: one per node, in script order (index i + 1), whose aux
+   chain names the node and then its parent *)
+ExpectedVerdefs ==
+    IF script.anon THEN <<>>
+    ELSE [i \in 1..N |-> IF Nodes[i].parent = 0 THEN <<i>> ELSE <<i, Nodes[i].parent>>]
+
 Rec(Syms) ==
-    [idx |-> script.idx, anon |-> script.anon,
+    [idx |-> script.idx, anon |-> script.anon, verdefs |-> ExpectedVerdefs,
      nodes |-> [i \in 1..N |-> [g |-> Nodes[i].g, l |-> Nodes[i].l, parent |-> Nodes[i].parent]],
      syms |-> {[name |-> s, exported |-> Expect(s).exported, node |-> Expect(s).node,
                 gnu |-> Gnu(s), wild |-> wild[s], dev |-> DevKey(s)] : s \in Syms}]
